@@ -392,25 +392,29 @@ class ClassObject(Object, Callable):
                 if isinstance(b, Callable) and hasattr(type(b), '_attrs')]
 
     def _linearise(self, path):
-        # type: (list[object]) -> list[tuple[object, Attributes]]
+        # type: (list[object]) -> list[tuple[object, Attributes | None]]
         # the classes below this one in the order of Python's MRO (C3: a class
-        # comes before its bases, bases keep their order), each with its own table
+        # comes before its bases, bases keep their order, object comes last),
+        # each with its own table (None for the object no class spells out)
         def entry(b):
-            # type: (t.Any) -> tuple[object, Attributes]
+            # type: (t.Any) -> tuple[object, Attributes | None]
             if isinstance(b, ClassObject):
                 return b.scope, b._cls_attrs
             return getattr(b, 'value', b), b._attrs
 
         bases = [b for b in self.bases if not any(entry(b)[0] is k for k in path)]  # no inheritance cycles
-        seqs = []
+        seqs = []  # type: list[list[tuple[object, Attributes | None]]]
         for b in bases:
             seq = [entry(b)]
             if isinstance(b, ClassObject):
                 seq += b._linearise(path + [entry(b)[0]])
+            elif isinstance(getattr(b, 'value', None), type):
+                # a runtime class brings its own ancestors (Exception: BaseException, object)
+                seq += [(k, RuntimeName(k.__name__, k)._attrs) for k in b.value.__mro__[1:]]
             seqs.append(seq)
-        seqs.append([entry(b) for b in bases])
+        seqs.append([entry(b) for b in bases] + [(object, None)])
 
-        result = []  # type: list[tuple[object, Attributes]]
+        result = []  # type: list[tuple[object, Attributes | None]]
         while True:
             seqs = [seq for seq in seqs if seq]
             if not seqs:
@@ -421,17 +425,16 @@ class ClassObject(Object, Callable):
                     break
             else:
                 head = seqs[0][0]  # no consistent order: Python would refuse this class
-            result.append(head)
+            # object's own table counts when some class of the hierarchy names a runtime class
+            tables = [it[1] for seq in seqs for it in seq if it[0] is head[0] and it[1] is not None]
+            result.append((head[0], tables[0] if tables else None))
             seqs = [[it for it in seq if it[0] is not head[0]] for seq in seqs]
 
     @cached_property
     def _ancestor_tables(self):
         # type: () -> list[Attributes]
         # own tables of the classes attributes are inherited from, in lookup order
-        order = self._linearise([self.scope])
-        # every class derives from object, written or not: it comes last
-        order = [it for it in order if it[0] is not object] + [it for it in order if it[0] is object][:1]
-        return [table for _key, table in order]
+        return [table for _key, table in self._linearise([self.scope]) if table is not None]
 
     @cached_property
     def _attrs(self):
